@@ -1228,3 +1228,10 @@ VARIANTS = [
      "old": "    for name in sorted(args.namedargs):\n      namedarg = args.namedargs[name]",
      "new": "    for name, namedarg in sorted(args.namedargs.items()):"},
 ]
+
+EXPLANATION += (
+    " R2.25/R2.26 (rules/c02_stores.py): the annotations table a *global* store consults is not constantly None on any path that does not itself ask a table whether it knows the name (D61, repaired: module-level STORE_GLOBAL is recorded like STORE_NAME, a global stored from a function is looked up in the module's table); STORE_DEREF hands the current frame's table to _apply_annotation for every cell slot although the opcode also stores free variables (`nonlocal y`), whose annotation lives in the enclosing function's table (known finding D62)."
+)
+ASSUMPTIONS += [
+    "R2.25/R2.26 follow the VM's store handlers through self.<method>() calls with constant-argument propagation; a table obtained through any other indirection is an ANALYSIS-ERROR.",
+]
